@@ -4,6 +4,7 @@ package scrape
 
 import (
 	parser "github.com/VictoriaMetrics/VictoriaMetrics/lib/protoparser/prometheus"
+	"github.com/prometheus/common/model"
 	"github.com/prometheus/prometheus/model/labels"
 	"github.com/prometheus/prometheus/model/relabel"
 
@@ -49,6 +50,17 @@ func VStats(n int) {
 		VKeep[i] = zzv.Bool("row" + zzv.Itoa(i) + ".keep")
 	}
 	rc := []*relabel.Config{{}}
+	if !zzv.Symbolic() {
+		// natively the real relabel.Process runs: a drop rule on the per-row label "l" realises
+		// the scripted verdicts
+		re := "nomatch"
+		for i := 0; i < n; i++ {
+			if !VKeep[i] {
+				re += "|v" + zzv.Itoa(i)
+			}
+		}
+		rc = []*relabel.Config{{SourceLabels: model.LabelNames{"l"}, Separator: ";", Regex: relabel.MustNewRegexp(re), Action: relabel.Drop}}
+	}
 	res := NewStatisticsSeriesResult()
 	split := zzv.Choose("split", n+1)
 	crashed := zzv.Crashed(func() {
@@ -88,9 +100,11 @@ func VStats(n int) {
 		zzv.Assert("C14.stats.m2", res.MetricsTotal["m2"] != nil && res.MetricsTotal["m2"].Total == m2 && res.MetricsTotal["m2"].Scraped == m2kept)
 	}
 	// each sample is judged on its own labels: the model saw one call per row with that row's name
-	zzv.Assert("C14.stats.ownlabels.calls", vKeepCalls == n && len(vSeenNames) == n)
-	for i := 0; i < n && i < len(vSeenNames); i++ {
-		zzv.Assert("C14.stats.ownlabels", vSeenNames[i] == rows[i].Metric)
+	if zzv.Symbolic() {
+		zzv.Assert("C14.stats.ownlabels.calls", vKeepCalls == n && len(vSeenNames) == n)
+		for i := 0; i < n && i < len(vSeenNames); i++ {
+			zzv.Assert("C14.stats.ownlabels", vSeenNames[i] == rows[i].Metric)
+		}
 	}
 	zzv.Observe("stats", n, res.Total, res.ScrapedTotal)
 	zzv.Cover("stats.end")
